@@ -192,6 +192,12 @@ func (trr *TimeRangeReader) readAllTimestampsForBlock(blockNum uint16) error {
 
 	cOffLen := blockMeta.ColBlockOffAndLen[cnameIdx]
 
+	// offset and length come from the block summary file, which is not checksummed
+	if !segreader.BlockFitsInFile(trr.timeFD, cOffLen.Offset, cOffLen.Length) {
+		trr.loadedBlock = false
+		return ErrInvalidOffsetAndLength
+	}
+
 	if trr.blockReadBuffer == nil {
 		trr.blockReadBuffer = segreader.GetBufFromPool(int64(cOffLen.Length))
 	} else if len(trr.blockReadBuffer) < int(cOffLen.Length) {
@@ -419,6 +425,16 @@ func ReadAllTimestampsForBlock(blkNums map[uint16]struct{}, segKey string,
 	for minIdx, maxIdx := 0, 0; minIdx < len(allBlocks); minIdx = maxIdx + 1 {
 		minBlkNum := allBlocks[minIdx]
 		lastBlkNum := minBlkNum
+		// The block summary file is not checksummed: make sure every requested block has an
+		// entry for the timestamp column before indexing into it.
+		for _, blkNum := range allBlocks[minIdx:] {
+			bmh, ok := allBmi.AllBmh[blkNum]
+			if !ok || bmh == nil || cnameIdx >= len(bmh.ColBlockOffAndLen) || int(blkNum) >= len(blockSummaries) {
+				close(allReadJob)
+				readerWG.Wait()
+				return retVal, ErrInvalidOffsetAndLength
+			}
+		}
 		cOffLen := allBmi.AllBmh[minBlkNum].ColBlockOffAndLen[cnameIdx]
 		firstBlkOff := cOffLen.Offset
 		blkLen := cOffLen.Length
@@ -436,6 +452,10 @@ func ReadAllTimestampsForBlock(blkNums map[uint16]struct{}, segKey string,
 			} else {
 				break
 			}
+		}
+		if !segreader.BlockFitsInFile(fd, firstBlkOff, blkLen) {
+			retErr = ErrInvalidOffsetAndLength
+			continue
 		}
 		buffer := segreader.GetBufFromPool(int64(blkLen))
 		rawChunk, err := readChunkFromFile(fd, buffer, blkLen, firstBlkOff)
